@@ -245,7 +245,7 @@ func (fc *fnCtx) builtin(cs *callSite, b *ssa.Builtin) *val {
 				op = "bvule"
 			}
 			if b.Name() == "max" {
-				a, c = c, a
+				return &val{k: kInt, w: a.w, signed: a.signed, t: []string{fmt.Sprintf("(ite (%s %s %s) %s %s)", op, a.t[0], c.t[0], c.t[0], a.t[0])}}
 			}
 			return &val{k: kInt, w: a.w, signed: a.signed, t: []string{fmt.Sprintf("(ite (%s %s %s) %s %s)", op, a.t[0], c.t[0], a.t[0], c.t[0])}}
 		}
@@ -306,12 +306,12 @@ func (fc *fnCtx) appendBuiltin(cs *callSite) *val {
 	g.assume(fmt.Sprintf("(=> %s (bvsle %s MAXLEN))", fc.curR, newLen)) // global length assumption
 	fits := g.bind("appfits", "Bool", fmt.Sprintf("(bvsle %s %s)", newLen, s.t[3]))
 	if g.lite {
-		ref := fc.alloc("app")
+		ref := fc.alloc("app", et)
 		return &val{k: kSlice, constLen: -1, t: []string{fmt.Sprintf("(ite %s %s %s)", fits, s.t[0], ref), z64, newLen, newLen}}
 	}
 	// fresh array case
 	before := fc.curH.clone()
-	ref := fc.alloc("app")
+	ref := fc.alloc("app", et)
 	newCap := g.declare(g.freshName("appcap"), "(_ BitVec 64)")
 	g.assume(fmt.Sprintf("(and (bvsle %s %s) (bvsle %s (bvshl MAXLEN #x0000000000000001)))", newLen, newCap, newCap))
 	kinds := kindsOf(et)
@@ -484,7 +484,7 @@ func (fc *fnCtx) intrinsic(cs *callSite, callee *ssa.Function, name string) (*va
 		}
 		return unit, true
 	case name == "fmt.Errorf" || name == "errors.New":
-		ref := fc.alloc("err")
+		ref := fc.alloc("err", nil)
 		g.trusted["fmt.Errorf/errors.New return a fresh non-nil error"] = true
 		return &val{k: kIface, t: []string{fmt.Sprint(typeTag(types.Typ[types.String])), ref, z64}}, true
 	case name == "errors.Is":
@@ -705,9 +705,19 @@ func (fc *fnCtx) mergeReturns(ch *fnCtx, cs *callSite) *val {
 // ---------------------------------------------------------------------------------------
 // contracts at call sites
 
-func (fc *fnCtx) applyContract(cs *callSite, callee *ssa.Function, c *contract) *val {
+func (fc *fnCtx) applyContract(cs *callSite, callee *ssa.Function, c *contract) (out *val) {
 	g := fc.g
 	key := fnKeyQ(callee)
+	if callee.Blocks == nil && strings.HasPrefix(pkgPathOf(callee), modulePath) {
+		// the callee's package is loaded from export data only: its contract may mention unexported spec functions
+		// that are not visible here; fall back to treating the call as unknown code
+		defer func() {
+			if r := recover(); r != nil {
+				g.unmodelled["contract-not-evaluable-here:"+key]++
+				out = fc.havocCall(cs, true)
+			}
+		}()
+	}
 	if strings.HasPrefix(pkgPathOf(callee), modulePath) {
 		g.assumedCon[key] = true
 	}
@@ -732,7 +742,7 @@ func (fc *fnCtx) applyContract(cs *callSite, callee *ssa.Function, c *contract) 
 			env[sig.Params().At(i).Name()] = &a
 		}
 	}
-	pre := &specCtx{fc: fc, g: g, fn: callee, args: env, h: fc.curH, oldH: fc.curH, guard: fc.curR}
+	pre := &specCtx{fc: fc, g: g, fn: callee, args: env, h: fc.curH, oldH: fc.curH, guard: fc.curR, prove: true}
 	for k, r := range c.requires {
 		f, err := pre.boolExpr(r.expr)
 		if err != nil {
@@ -807,13 +817,18 @@ func (fc *fnCtx) applyContract(cs *callSite, callee *ssa.Function, c *contract) 
 			rs = []*val{res}
 		}
 	}
-	post := &specCtx{fc: fc, g: g, fn: callee, args: env, h: fc.curH, oldH: oldH, results: rs, guard: fc.curR}
+	post := &specCtx{fc: fc, g: g, fn: callee, args: env, h: fc.curH, oldH: oldH, results: rs, guard: fc.curR, acOld: oldAC}
 	if rs == nil {
 		post.results = []*val{}
 	}
+	post.cguards = []string{fc.curR}
 	for _, e := range c.ensures {
-		f, err := post.boolExpr(e.expr)
+		f, err := post.assumeSpec(e.expr)
 		if err != nil {
+			if strings.Contains(err.Error(), "unknown identifier") {
+				// a postcondition about a callee-local (checked in the callee, not usable by callers)
+				continue
+			}
 			fatalContract(callee, "ensures", e.expr, err)
 		}
 		g.assume(fmt.Sprintf("(=> %s %s)", fc.curR, f))
@@ -971,7 +986,17 @@ func ufArgs(g *gen, args []*val, h heap) ([]string, []string, bool) {
 			sorts = append(sorts, a.rowSort)
 			terms = append(terms, a.t[0])
 		case kStruct, kTuple:
-			s2, t2, ok := ufArgs(g, a.elems, h)
+			// pointers nested in a by-value struct argument are passed by identity (assumption: pure functions do
+			// not read through them, e.g. time.Time.loc)
+			elems := make([]*val, 0, len(a.elems))
+			for _, e := range a.elems {
+				if e.k == kPtr {
+					elems = append(elems, &val{k: kInt, w: 64, t: []string{e.t[1]}}, &val{k: kOpaque, t: []string{e.t[0]}, rowSort: "Int"})
+				} else {
+					elems = append(elems, e)
+				}
+			}
+			s2, t2, ok := ufArgs(g, elems, h)
 			if !ok {
 				return nil, nil, false
 			}
